@@ -60,6 +60,8 @@ type box struct {
 	empty  func() bool
 	full   func() bool   // circular buffer only
 	shape  func() string // Coq term of an SRaw / SRing step, or ""
+	// scribble: a caller overwrites every cell of a fresh Values() result (nil: do it on values())
+	scribble func()
 	// method names for the labels
 	nEnq, nDeq string
 }
@@ -89,7 +91,14 @@ func fromStack(s stackLike) *box {
 	return &box{enq: s.Push, deq: s.Pop, peek: s.Peek, clear: s.Clear, values: s.Values, size: s.Size, empty: s.Empty, nEnq: "Push", nDeq: "Pop"}
 }
 func fromHeap(h heapLike) *box {
-	b := &box{enq: func(v int) { h.Push(v) }, push: func(vs []int) { h.Push(vs...) }, deq: h.Pop, peek: h.Peek, clear: h.Clear,
+	b := &box{enq: func(v int) { h.Push(v) },
+		push: func(vs []int) { // the caller reuses its batch buffer right after the call
+			buf := append([]int(nil), vs...)
+			h.Push(buf...)
+			for i := range buf {
+				buf[i] = sentinel
+			}
+		}, deq: h.Pop, peek: h.Peek, clear: h.Clear,
 		values: h.Values, size: h.Size, empty: h.Empty, nEnq: "Push", nDeq: "Pop"}
 	if r, ok := h.(interface{ VerifBacking() ([]int, int) }); ok {
 		b.shape = func() string {
@@ -100,17 +109,108 @@ func fromHeap(h heapLike) *box {
 	return b
 }
 
+// ---------- struct elements ordered by a priority field; encoded in the Coq cases by that priority ----------
+type item struct {
+	prio int
+	name string
+}
+
+var itemSeq int
+
+func mkItem(v int) item {
+	itemSeq++
+	return item{prio: v, name: fmt.Sprint("job", itemSeq%7)}
+}
+
+type gheap[E any] interface {
+	Push(vs ...E)
+	Pop() (E, bool)
+	Peek() (E, bool)
+	Clear()
+	Values() []E
+	Size() int
+	Empty() bool
+}
+type gqueue[E any] interface {
+	Enqueue(v E)
+	Dequeue() (E, bool)
+	Peek() (E, bool)
+	Clear()
+	Values() []E
+	Size() int
+	Empty() bool
+}
+
+func itemShape(x interface{}) func() string {
+	if r, ok := x.(interface{ VerifBacking() ([]item, int) }); ok {
+		return func() string {
+			e, n := r.VerifBacking()
+			return fmt.Sprintf("SRaw %s %s", vhlib.IntList(prios(e)), vhlib.Nat(n))
+		}
+	}
+	return nil
+}
+func prios(es []item) []int {
+	r := make([]int, len(es))
+	for i, e := range es {
+		r[i] = e.prio
+	}
+	return r
+}
+func fromItemHeap(h gheap[item]) *box {
+	return &box{enq: func(v int) { h.Push(mkItem(v)) },
+		push: func(vs []int) {
+			es := make([]item, len(vs))
+			for i, v := range vs {
+				es[i] = mkItem(v)
+			}
+			h.Push(es...)
+			for i := range es {
+				es[i] = mkItem(sentinel)
+			}
+		},
+		deq: func() (int, bool) { e, ok := h.Pop(); return e.prio, ok }, peek: func() (int, bool) { e, ok := h.Peek(); return e.prio, ok },
+		clear: h.Clear, values: func() []int { return prios(h.Values()) }, size: h.Size, empty: h.Empty, nEnq: "Push", nDeq: "Pop",
+		shape: itemShape(h),
+		scribble: func() {
+			s := h.Values()
+			for i := range s {
+				s[i] = mkItem(sentinel)
+			}
+		}}
+}
+func fromItemQueue(q gqueue[item]) *box {
+	return &box{enq: func(v int) { q.Enqueue(mkItem(v)) },
+		deq: func() (int, bool) { e, ok := q.Dequeue(); return e.prio, ok }, peek: func() (int, bool) { e, ok := q.Peek(); return e.prio, ok },
+		clear: q.Clear, values: func() []int { return prios(q.Values()) }, size: q.Size, empty: q.Empty, nEnq: "Enqueue", nDeq: "Dequeue",
+		shape: itemShape(q),
+		scribble: func() {
+			s := q.Values()
+			for i := range s {
+				s[i] = mkItem(sentinel)
+			}
+		}}
+}
+
+const sentinel = 77 // never enqueued
+
 type kind struct {
 	name, coq string
 	safe      bool
 	mk        func() *box
-	heap      bool
+	heap      bool // bulk Push exists
+	ordered   bool // heap-ordered container (binaryheap, priorityqueue): also runs the wide-magnitude profile
+	noExh     bool // no bounded-exhaustive stream for this comparator shape (the other shapes cover it)
 	cap       int
 }
 
 func allKinds() []kind {
 	cmp := bcomparator.IntComparator()
 	rev := bcomparator.ReverseComparator(bcomparator.IntComparator())
+	sub := func(a, b int) int { return a - b }
+	subRev := func(a, b int) int { return b - a }
+	scaled := func(a, b int) int { return (a - b) * 7 }
+	byPrio := func(a, b item) int { return a.prio - b.prio }
 	ks := []kind{
 		{name: "arrayqueue", coq: "KAQ", mk: func() *box { return fromQueue(arrayqueue.New[int]()) }},
 		{name: "arrayqueue.Safe", coq: "KAQ", safe: true, mk: func() *box { return fromQueue(arrayqueue.NewSafe[int]()) }},
@@ -120,12 +220,23 @@ func allKinds() []kind {
 		{name: "arraystack.Safe", coq: "KAS", safe: true, mk: func() *box { return fromStack(arraystack.NewSafe[int]()) }},
 		{name: "linkedliststack", coq: "KLS", mk: func() *box { return fromStack(linkedliststack.New[int]()) }},
 		{name: "linkedliststack.Safe", coq: "KLS", safe: true, mk: func() *box { return fromStack(linkedliststack.NewSafe[int]()) }},
-		{name: "priorityqueue", coq: "(KPQ false)", mk: func() *box { return fromQueue(priorityqueue.NewWith[int](cmp)) }},
-		{name: "priorityqueue(reverse)", coq: "(KPQ true)", mk: func() *box { return fromQueue(priorityqueue.NewWith[int](rev)) }},
-		{name: "priorityqueue.Safe", coq: "(KPQ false)", safe: true, mk: func() *box { return fromQueue(priorityqueue.NewSafeWith[int](cmp)) }},
-		{name: "binaryheap", coq: "(KBH false)", heap: true, mk: func() *box { return fromHeap(binaryheap.NewWith[int](cmp)) }},
-		{name: "binaryheap(reverse)", coq: "(KBH true)", heap: true, mk: func() *box { return fromHeap(binaryheap.NewWith[int](rev)) }},
-		{name: "binaryheap.Safe", coq: "(KBH false)", heap: true, safe: true, mk: func() *box { return fromHeap(binaryheap.NewSafeWith[int](cmp)) }},
+		// comparator shapes: -1/0/+1, its reverse, and user-style comparators whose magnitudes vary
+		{name: "priorityqueue", coq: "(KPQ CInt)", ordered: true, mk: func() *box { return fromQueue(priorityqueue.NewWith[int](cmp)) }},
+		{name: "priorityqueue(reverse)", coq: "(KPQ CRev)", ordered: true, noExh: true, mk: func() *box { return fromQueue(priorityqueue.NewWith[int](rev)) }},
+		{name: "priorityqueue(a-b)", coq: "(KPQ CSub)", ordered: true, mk: func() *box { return fromQueue(priorityqueue.NewWith[int](sub)) }},
+		{name: "priorityqueue(b-a)", coq: "(KPQ CSubRev)", ordered: true, noExh: true, mk: func() *box { return fromQueue(priorityqueue.NewWith[int](subRev)) }},
+		{name: "priorityqueue((a-b)*7)", coq: "(KPQ CScaled)", ordered: true, noExh: true, mk: func() *box { return fromQueue(priorityqueue.NewWith[int](scaled)) }},
+		{name: "priorityqueue(a.prio-b.prio)", coq: "(KPQ CPrio)", ordered: true, mk: func() *box { return fromItemQueue(priorityqueue.NewWith[item](byPrio)) }},
+		{name: "priorityqueue.Safe", coq: "(KPQ CInt)", ordered: true, safe: true, mk: func() *box { return fromQueue(priorityqueue.NewSafeWith[int](cmp)) }},
+		{name: "priorityqueue.Safe(a-b)", coq: "(KPQ CSub)", ordered: true, safe: true, mk: func() *box { return fromQueue(priorityqueue.NewSafeWith[int](sub)) }},
+		{name: "binaryheap", coq: "(KBH CInt)", heap: true, ordered: true, mk: func() *box { return fromHeap(binaryheap.NewWith[int](cmp)) }},
+		{name: "binaryheap(reverse)", coq: "(KBH CRev)", heap: true, ordered: true, noExh: true, mk: func() *box { return fromHeap(binaryheap.NewWith[int](rev)) }},
+		{name: "binaryheap(a-b)", coq: "(KBH CSub)", heap: true, ordered: true, noExh: true, mk: func() *box { return fromHeap(binaryheap.NewWith[int](sub)) }},
+		{name: "binaryheap(b-a)", coq: "(KBH CSubRev)", heap: true, ordered: true, mk: func() *box { return fromHeap(binaryheap.NewWith[int](subRev)) }},
+		{name: "binaryheap((a-b)*7)", coq: "(KBH CScaled)", heap: true, ordered: true, mk: func() *box { return fromHeap(binaryheap.NewWith[int](scaled)) }},
+		{name: "binaryheap(a.prio-b.prio)", coq: "(KBH CPrio)", heap: true, ordered: true, noExh: true, mk: func() *box { return fromItemHeap(binaryheap.NewWith[item](byPrio)) }},
+		{name: "binaryheap.Safe", coq: "(KBH CInt)", heap: true, ordered: true, safe: true, mk: func() *box { return fromHeap(binaryheap.NewSafeWith[int](cmp)) }},
+		{name: "binaryheap.Safe(b-a)", coq: "(KBH CSubRev)", heap: true, ordered: true, safe: true, mk: func() *box { return fromHeap(binaryheap.NewSafeWith[int](subRev)) }},
 	}
 	for c := 1; c <= 5; c++ {
 		c := c
@@ -161,58 +272,68 @@ type caseBuilder struct {
 	hist   []string
 	dead   bool
 	peak   int
+	kept   [][]int // every slice Values() returned (the very slice)
 }
 
 func newCase(k kind) *caseBuilder { return &caseBuilder{k: k, b: k.mk()} }
 
-func getRes(v int, ok bool) string {
-	return fmt.Sprintf("(RGet %s %s)", vhlib.Z(int64(v)), vhlib.Bool(ok))
+func tf(b bool) string {
+	if b {
+		return "T"
+	}
+	return "F"
 }
 
+// call runs one call on the real container and appends the step (short forms en_, dq_, pk_, vl_, sz_, em_, fu_ of
+// Check.v; a panic is SOp <op> RPanic and ends the case)
 func (c *caseBuilder) call(o op, label string) {
 	if c.dead {
 		return
 	}
-	var coq, res string
+	var coq, step string
 	p, _ := vhlib.Recover(func() {
 		switch o.K {
 		case "Enq":
 			coq = "(QEnq " + vhlib.Z(int64(o.V)) + ")"
 			c.b.enq(o.V)
-			res = "RUnit"
+			step = "en_ " + vhlib.Z(int64(o.V))
 		case "Push":
 			coq = "(QPush " + vhlib.IntList(o.Vs) + ")"
 			c.b.push(o.Vs)
-			res = "RUnit"
+			step = "SOp " + coq + " RUnit"
 		case "Deq":
 			coq = "QDeq"
-			res = getRes(c.b.deq())
+			v, ok := c.b.deq()
+			step = "dq_ " + vhlib.Z(int64(v)) + " " + tf(ok)
 		case "Peek":
 			coq = "QPeek"
-			res = getRes(c.b.peek())
+			v, ok := c.b.peek()
+			step = "pk_ " + vhlib.Z(int64(v)) + " " + tf(ok)
 		case "Clear":
 			coq = "QClear"
 			c.b.clear()
-			res = "RUnit"
+			step = "SOp QClear RUnit"
 		case "Values":
 			coq = "QValues"
-			res = "(RList " + vhlib.IntList(c.b.values()) + ")"
+			vs := c.b.values()
+			c.kept = append(c.kept, vs)
+			step = "vl_ " + vhlib.IntList(vs)
 		case "Size":
 			coq = "QSize"
-			res = "(RInt " + vhlib.Z(int64(c.b.size())) + ")"
+			step = "sz_ " + vhlib.Z(int64(c.b.size()))
 		case "Empty":
 			coq = "QEmpty"
-			res = "(RBool " + vhlib.Bool(c.b.empty()) + ")"
+			step = "em_ " + tf(c.b.empty())
 		case "Full":
 			coq = "QFull"
-			res = "(RBool " + vhlib.Bool(c.b.full()) + ")"
+			step = "fu_ " + tf(c.b.full())
 		}
 	})
 	if p {
-		res = "RPanic"
+		step = "SOp " + coq + " RPanic"
 		c.dead = true
 	}
-	c.steps = append(c.steps, "SOp "+coq+" "+res)
+	c.steps = append(c.steps, step)
 	c.labels = append(c.labels, label)
 }
 
@@ -268,7 +389,37 @@ func (c *caseBuilder) observe(after string) {
 	}
 }
 
+// scribble: a caller overwrites the slice it got from Values(); the container must not notice. No Coq step (model and
+// reference ignore it); the usual observers follow.
+func (c *caseBuilder) scribble() {
+	if c.dead {
+		return
+	}
+	c.hist = append(c.hist, "Scribble(Values())")
+	p, _ := vhlib.Recover(func() {
+		if c.b.scribble != nil {
+			c.b.scribble()
+			return
+		}
+		s := c.b.values()
+		for i := range s {
+			s[i] = sentinel
+		}
+	})
+	if !p {
+		c.observe("Scribble")
+	}
+}
+
 func (c *caseBuilder) emit(w *vhlib.Writer, profile string) {
+	if !c.dead { // aliasing judgement: the slices Values() returned, read again now
+		it := make([]string, len(c.kept))
+		for i, s := range c.kept {
+			it[i] = vhlib.IntList(s)
+		}
+		c.steps = append(c.steps, "SKept "+vhlib.List(it))
+		c.labels = append(c.labels, "kept Values() results")
+	}
 	term := fmt.Sprintf("{| c_kind := %s; c_steps := [%s] |}", c.k.coq, strings.Join(c.steps, ";\n "))
 	w.Case(term, c.k.name+" "+profile, len(c.hist) >= 2 && c.peak >= 1, c.labels,
 		map[string]interface{}{"structure": c.k.name, "profile": profile, "calls": c.hist})
@@ -290,6 +441,9 @@ func main() {
 	}
 	for _, k := range kinds {
 		if k.safe && !(thorough && k.cap > 0 && k.cap <= 2) {
+			continue
+		}
+		if k.noExh && !thorough {
 			continue
 		}
 		l := L
@@ -396,6 +550,8 @@ func main() {
 				if k.heap {
 					c.do(op{K: "Push", Vs: []int{1, 0, 2, 0}})
 				}
+				c.scribble()
+				c.do(op{K: "Enq", V: 1})
 				c.do(op{K: "Clear"})
 				for _, p := range enq(m+1, variant) {
 					c.do(p)
@@ -413,11 +569,17 @@ func main() {
 		walks = 200
 	}
 	for _, k := range kinds {
-		for _, prof := range []string{"fill-drain", "churn", "zeros", "wide", "bulk"} {
+		for _, prof := range []string{"fill-drain", "churn", "zeros", "wide", "bulk", "spread"} {
 			if prof == "bulk" && !k.heap {
 				continue
 			}
+			if prof == "spread" && !k.ordered { // magnitudes of comparator results vary widely
+				continue
+			}
 			nw := walks
+			if k.ordered && !thorough {
+				nw = 5
+			}
 			if k.safe && !thorough {
 				nw = walks / 3
 			}
@@ -429,7 +591,7 @@ func main() {
 			}
 		}
 	}
-	w.Close(o, "one case = one container (array/linked queue, circular buffer of capacity 1..5, priority queue, binary heap with the int comparator or its reverse, array/linked stack; plain or Safe wrapper) driven through a word of Enqueue/Push, Dequeue/Pop, Clear, bulk Push (exhaustive short words, Clear in every fill state followed by reuse, profiled random long words); after every mutator Peek, Values, Size, Empty (Full) and the ring cursors / heap array are recorded; distinct = distinct case terms; non-trivial = at least two mutators and a non-empty container reached")
+	w.Close(o, "one case = one container (array/linked queue, circular buffer of capacity 1..5, priority queue and binary heap with comparators of several shapes: -1/0/+1, its reverse, a-b, b-a, (a-b)*7, struct priority subtraction; array/linked stack; plain or Safe wrapper) driven through a word of Enqueue/Push, Dequeue/Pop, Clear, bulk Push (exhaustive short words, Clear in every fill state followed by reuse, profiled random long words); a caller scribbling over a Values() result is a step of some traces and every slice returned by Values() is read again at the end (aliasing judgement); after every mutator Peek, Values, Size, Empty (Full) and the ring cursors / heap array are recorded; distinct = distinct case terms; non-trivial = at least two mutators and a non-empty container reached")
 }
 
 func walk(c *caseBuilder, r *vhlib.Rng, prof string) {
@@ -443,12 +605,17 @@ func walk(c *caseBuilder, r *vhlib.Rng, prof string) {
 			return r.Intn(3)
 		case "wide", "bulk":
 			return r.Intn(9) - 2
+		case "spread":
+			return []int{-7, 0, 3, 10, 50, 51, 0, 3}[r.Intn(8)]
 		}
 		return r.Intn(3)
 	}
 	phaseUp := true
 	for s := 0; s < steps && !c.dead; s++ {
 		n := c.b.size()
+		if r.Chance(1, 12) {
+			c.scribble()
+		}
 		x := r.Intn(10)
 		switch prof {
 		case "fill-drain":
